@@ -9,6 +9,7 @@ closest-point / evaluation function and every number of objectives.  `sgn w = if
 is the code's reading of a weight: a zero weight is treated as `+1`.
 -/
 import DeapModel.Lemmas.C19
+import DeapModel.Lemmas.C19Gen
 import DeapModel.Lemmas.C01Class
 
 set_option linter.unusedSectionVars false
